@@ -49,13 +49,13 @@ def route_grammars(R):
     G.append(('class-start-ignore', class_start, {}))
 
     def classes():
-        req = R.Rule(None, R.Where(R.Py('None'), R.Py('lambda _: f != g')), omitted=True)
+        req = R.Rule(None, R.Where(R.Py('None'), R.Py('lambda _: zf != g')), omitted=True)
         return [R.Rule('start', R.Ref('K')),
-                R.Class('K', [R.Rule('f', R.Ref('X')),
+                R.Class('K', [R.Rule('zf', R.Ref('X')),
                               R.Rule('g', R.Str('q'), omitted=True),
                               R.Rule(None, R.Str('z'), omitted=True),
                               req,
-                              R.Rule('h', R.Call(R.Ref('P'), [R.Py('2')]))]),
+                              R.Rule('ah', R.Call(R.Ref('P'), [R.Py('2')]))]),
                 R.Class('P', [R.Rule('v', R.List(R.Ref('X'), min_len='n', max_len='n'))], params=['n']),
                 R.Class('E', []),
                 R.Rule('X', R.Regex('b+'))]
@@ -107,6 +107,13 @@ def route_grammars(R):
                 R.Rule('Space', R.Regex(r'\s+'), ignored=True)]
     G.append(('deep-nesting', deep, {}))
 
+    def deep_plain():
+        e = R.Seq(R.Str('a'), R.Str('b'))
+        for i in range(24):
+            e = R.Seq(e)
+        return [R.Rule('start', e)]
+    G.append(('deep-nesting-plain', deep_plain, {}))
+
     def let():
         return [R.Rule('start', R.Let('x', R.Ref('X'), R.Call(R.Ref('T'), [R.Ref('x')]))),
                 R.Rule('T', R.Right(R.Ref('p'), R.Str('!')), params=['p']),
@@ -151,6 +158,22 @@ def sub_routes(R):
         tag = 'anon' if anon else 'named'
         out.append((f'sub-{tag}-ignore', parent_nodes(anon), parent_exprs(anon), child))
         out.append((f'sub-{tag}-ignore+own', parent_nodes(anon), parent_exprs(anon), child_ignore))
+
+    # the base's start rule is a class; the sub-grammar defines no start of its own
+    def cs_nodes():
+        return [N('ClassDef', name='Start', params=None, members=[]),
+                N('RuleDef', is_override=False, is_ignored=False, name='X', params=None, expr=None),
+                N('RuleDef', is_override=False, is_ignored=False, name='Y', params=None, expr=None),
+                N('ClassDef', name='K', params=None, members=[]),
+                N('RuleDef', is_override=False, is_ignored=True, name='Space', params=None, expr=None)]
+
+    def cs_exprs():
+        return [R.Class('Start', [R.Rule('a', R.Str('x')), R.Rule('b', R.Ref('X'))]),
+                R.Rule('X', R.Regex('b+')),
+                R.Rule('Y', R.Choice(R.Ref('X'), R.Str('c'))),
+                R.Class('K', [R.Rule('f', R.Ref('X'))]),
+                R.Rule('Space', R.Regex(r'\s+'), ignored=True)]
+    out.append(('sub-class-start', cs_nodes(), cs_exprs, child))
     return out
 
 
@@ -180,6 +203,9 @@ def emitted_modules():
             out.append(e if isinstance(e, modroute.Emitted) else (l, e))
         if isinstance(ce, modroute.Emitted) and isinstance(pe, modroute.Emitted):
             ce.parent = pe
+        if isinstance(ce, modroute.Emitted):
+            ce.ancestor_nodes = [pnodes]
+            ce.own_nodes = cnodes if False else None
         # three-level chain: the child's statements as the grandchild sees them (parser nodes)
         cnodes = []
         for o in cbuild():
@@ -195,6 +221,7 @@ def emitted_modules():
                     name='gcmod', extends=R.parent('cmod', cnodes, extends=R.parent('pmod', pnodes)))
         if isinstance(ge, modroute.Emitted):
             ge.parent = ce if isinstance(ce, modroute.Emitted) else None
+            ge.ancestor_nodes = [cnodes, pnodes]
             out.append(ge)
         else:
             out.append((f'{label}:grandchild', ge))
@@ -268,6 +295,14 @@ def runtime_defs(uses_context):
             for a in n.names:
                 out[(a.asname or a.name).split('.')[0]] = n
     if 'mods' in _cache:
+        # template names only: what every stand-alone module of this convention defines
+        common = None
+        for m in _cache['mods'][1]:
+            if isinstance(m, modroute.Emitted) and not m.sub and m.uses_context == uses_context:
+                names = set(module_level_names(m.tree))
+                common = names if common is None else common & names
+        if common:
+            out = {k: v for k, v in out.items() if k in common}
         _cache[key] = out
     return out
 
@@ -779,7 +814,7 @@ def ignore_distribution(R, bad, stats):
     members) carries skip_ignored=True; without ignore declarations none does."""
     for e in emitted_modules()[1]:
         if True:
-            if not isinstance(e, modroute.Emitted) or not hasattr(e, 'body'):
+            if not isinstance(e, modroute.Emitted) or getattr(e, 'body', None) is None:
                 continue
             body, label = e.body, e.label
             has_ignore = any(isinstance(r, M.Obj) and r.d.get('is_ignored') for r in body) or e.sub
@@ -872,7 +907,7 @@ def route_ignored_sets(R, bad, stats):
     """the synthetic rule refers to exactly the rules flagged is_ignored (in declaration order)"""
     for e in emitted_modules()[1]:
         if True:
-            if not isinstance(e, modroute.Emitted) or not hasattr(e, 'body'):
+            if not isinstance(e, modroute.Emitted) or getattr(e, 'body', None) is None:
                 continue
             body, label = e.body, e.label
             ign_names = [r.d.get('name') for r in body if isinstance(r, M.Obj) and r.d.get('is_ignored')
@@ -1077,14 +1112,14 @@ def class_members(R, bad, stats):
             bad('C05-class-members', f'{e.label}: the `let` member of K is not parsed')
         if 'z' not in consts:
             bad('C05-class-members', f'{e.label}: the `pass` member of K is not parsed')
-        if 'lambda _: f != g' not in src:
+        if 'lambda _: zf != g' not in src:
             bad('C05-class-members', f'{e.label}: the `requires` condition of K is not evaluated')
         # binder order: each named member is bound before the next member starts
         stores = [(n.lineno, t.id) for n in ast.walk(pf) if isinstance(n, ast.Assign)
-                  for t in n.targets if isinstance(t, ast.Name) and t.id in ('f', 'g', 'h')
+                  for t in n.targets if isinstance(t, ast.Name) and t.id in ('zf', 'g', 'ah')
                   and isinstance(n.value, ast.Name) and n.value.id == '_result']
         order = [nm for _, nm in sorted(stores)]
-        if order != ['f', 'g', 'h']:
+        if order != ['zf', 'g', 'ah']:
             bad('C05-class-members', f'{e.label}: members of K are bound in the order {order}')
 
 
@@ -1095,6 +1130,7 @@ ROUTE_PROPS = [
     (('sub-',), {'C13', 'C11'}),
     (('plain',), {'C11', 'C08'}),
     (('deep-nesting',), {'C17', 'C11'}),
+    (('sub-',), {'C18'}),
 ]
 
 
@@ -1135,6 +1171,9 @@ def run(rep, pid, rules, label_filter=None):
     error_functions(mods, bad, stats)
     class_tables(bad=bad, stats=stats)
     class_members(R, bad, stats)
+    adaptor_rules(bad, stats)
+    subgrammar_imports(bad, stats)
+    inherited_start(bad, stats)
     route_failures(pid, rep)
     rep.count('route modules emitted', nmods)
     for k, v in stats.items():
@@ -1151,3 +1190,144 @@ def run(rep, pid, rules, label_filter=None):
         rep.add(Finding(rid, 'emitted-module', label.split('[')[0] + ('/' + inst if inst else ''), msg,
                         'sourcer/translator.py:generate_source_code + sourcer/expressions (route ' + label + ')'))
     return found, stats, nmods
+
+
+# --------------------------------------------------------------------------- adaptors / import list
+def adaptor_rules(bad, stats):
+    """the call adaptors of the runtime pass exactly the convention prefix and the stored arguments"""
+    for what, tree, rel in runtime_subjects():
+        cs = load.classes_of(tree)
+        fns = load.functions_of(tree)
+        run = fns.get('_run')
+        if run is None:
+            raise AnalysisError(f'{what}: anchor _run vanished')
+        ctx = bool(run.args.args and run.args.args[0].arg == '_ctx')
+        pre = prefix_params(ctx)
+        PRE = tuple(('PARAM', p) for p in pre)
+        SELF = ('PARAM', 'self')
+        for cname, want_fn in (('_ParseFunction', None), ('_StringLiteral', '_parse_function'),
+                               ('_ByteLiteral', '_parse_function')):
+            c = cs.get(cname)
+            if c is None:
+                raise AnalysisError(f'{what}: anchor class {cname} vanished')
+            call = next((m for m in c.body if isinstance(m, ast.FunctionDef) and m.name == '__call__'), None)
+            if call is None:
+                bad('ADAPTOR', f'{what}: {cname} is no longer callable: the driver starts it like a parse function')
+                continue
+            stats['adaptors'] = stats.get('adaptors', 0) + 1
+            params = positional_params(call)
+            if params != ['self'] + pre:
+                bad('ADAPTOR', f'{what}: {cname}.__call__ takes {params}; the driver calls it with {pre}')
+                continue
+            ps = P.Enumerator().function(call)
+            if len(ps) != 1 or ps[0].end[0] != 'return':
+                raise AnalysisError(f'{what}: {cname}.__call__ changed shape')
+            r = ps[0].end[1]
+            if want_fn:
+                want = ('CALL', ('ATTR', SELF, want_fn)) + PRE
+                if r != want:
+                    bad('ADAPTOR', f'{what}: {cname}.__call__ returns {P.tfmt(r)}; expected '
+                                   f'self.{want_fn}({", ".join(pre)})')
+            else:
+                want = ('CALL', ('ATTR', SELF, 'func')) + PRE + (
+                    ('STAR', ('ATTR', SELF, 'args')),
+                    ('KW', None, ('CALL', ('VAR', 'dict'), ('ATTR', SELF, 'kwargs'))))
+                if r != want:
+                    bad('ADAPTOR', f'{what}: _ParseFunction.__call__ returns {P.tfmt(r)}; expected '
+                                   f'self.func({", ".join(pre)}, *self.args, **dict(self.kwargs))')
+        for wname, cname in (('_wrap_string_literal', '_StringLiteral'), ('_wrap_byte_literal', '_ByteLiteral')):
+            w = fns.get(wname)
+            if w is None:
+                raise AnalysisError(f'{what}: anchor {wname} vanished')
+            stats['adaptors'] = stats.get('adaptors', 0) + 1
+            ps = P.Enumerator().function(w)
+            a0, a1 = [('PARAM', a.arg) for a in w.args.args][:2]
+            ok = len(ps) == 1 and ps[0].end[0] == 'return'
+            if ok:
+                made = ('CALL', ('VAR', cname), a0)
+                stores = [e for e in ps[0].events('attrstore')]
+                ok = any(e[2][2] == '_parse_function' and e[3] == a1 for e in stores) and (
+                    ps[0].end[1] in (made, ('OBJ', 'result')) or ps[0].env.get('result') == ('OBJ', 'result'))
+                created = [e for e in ps[0].events('assign') if e[3] == made]
+                ok = ok and bool(created)
+            if not ok:
+                bad('ADAPTOR', f'{what}: {wname} does not return {cname}(value) carrying the parse function')
+        pf = cs['_ParseFunction']
+        base = ast.unparse(pf.bases[0]) if pf.bases else ''
+        if "'func, args, kwargs'" not in base.replace('"', "'"):
+            bad('ADAPTOR', f'{what}: _ParseFunction fields are no longer (func, args, kwargs): {base}')
+
+
+def subgrammar_imports(bad, stats):
+    """a sub-grammar imports its runtime from the parent: the import list must cover every runtime
+    name that *any* emission route can mention (routes of stand-alone grammars show which)"""
+    R, mods = emitted_modules()
+    needed = {}
+    rt_names = None
+    for m in mods:
+        if not isinstance(m, modroute.Emitted) or m.sub:
+            continue
+        rt = runtime_defs(m.uses_context)
+        for node in m.tree.body:
+            emitted_part = isinstance(node, (ast.FunctionDef,)) and node.name.startswith(
+                ('_try_', '_parse_', '_raise_error')) or (
+                isinstance(node, ast.ClassDef) and node.name not in rt) or (
+                isinstance(node, ast.Assign) and not any(isinstance(t, ast.Name) and t.id in rt for t in node.targets))
+            if not emitted_part:
+                continue
+            for n in ast.walk(node):
+                if isinstance(n, ast.Name) and isinstance(n.ctx, ast.Load) and n.id in rt \
+                        and isinstance(rt[n.id], (ast.FunctionDef, ast.ClassDef, ast.Assign, ast.ImportFrom)):
+                    needed.setdefault(n.id, m.label)
+    imported = None
+    for m in mods:
+        if isinstance(m, modroute.Emitted) and m.sub:
+            names = set()
+            for n in m.tree.body:
+                if isinstance(n, ast.ImportFrom):
+                    names |= {a.asname or a.name for a in n.names}
+            imported = names if imported is None else imported & names
+    if imported is None:
+        raise AnalysisError('no sub-grammar route was emitted')
+    stats['runtime_names_needed'] = len(needed)
+    for name, label in sorted(needed.items()):
+        if name not in imported and name not in ('_ctx',):
+            bad('SUBIMPORT-complete', f'sub-grammar prologue: the runtime name {name} (mentioned by emitted code, e.g. '
+                                      f'route {label}) is not imported from the parent module: NameError in a '
+                                      f'sub-grammar that uses the construct')
+
+
+def inherited_start(bad, stats):
+    """C13: a sub-grammar that defines no start of its own starts the nearest inherited start - a
+    rule or a class - through its context (late-bound)"""
+    R, mods = emitted_modules()
+    for m in mods:
+        if not isinstance(m, modroute.Emitted) or not m.sub or not hasattr(m, 'ancestor_nodes'):
+            continue
+        funcs = functions_top(m.tree)
+        parse = funcs.get('parse')
+        if parse is None:
+            bad('START-inherited', f'{m.label}: sub-grammar module has no public parse()')
+            continue
+        call = [n for n in ast.walk(parse) if isinstance(n, ast.Call) and isinstance(n.func, ast.Name)
+                and n.func.id == '_run']
+        if len(call) != 1:
+            raise AnalysisError(f'{m.label}: parse() does not call the driver once')
+        got = ast.unparse(call[0].args[-2])
+        own = [n for n in funcs if n.startswith('_try_') and n[5:].lower() == 'start']
+        stats['sub_starts'] = stats.get('sub_starts', 0) + 1
+        if own:
+            want = own[0]
+        else:
+            want = None
+            for nodes in m.ancestor_nodes:
+                for st in nodes:
+                    nm = getattr(st, 'name', None)
+                    if isinstance(nm, str) and nm.lower() == 'start':
+                        want = f'_ctx.{impl(nm)}'
+                        break
+                if want:
+                    break
+        if want is not None and got != want:
+            bad('START-inherited', f'{m.label}: parse() of the sub-grammar starts {got}; the inherited start is '
+                                   f'{want} (a base grammar\'s start may be a rule or a class)')
